@@ -14,7 +14,7 @@ PROPERTY = "C15"
 LEVEL = "exploration"
 ENGINE = "sim"
 TECHNIQUE = "runtime monitor in a deterministic world: completion instant on the virtual clock against t_start + timeout + eps, per page fetch; world hang detection while blocked in result()"
-LEVEL_TEXT = ("Hundreds (quick) to tens of thousands (thorough) of seeded schedules: 1-2 requests (simple / bound / paged, up to 4 page fetches) "
+LEVEL_TEXT = ("Hundreds (quick) to tens of thousands (thorough) of seeded schedules: 1-2 requests (simple / bound / paged with up to 4 page fetches / USE / DDL whose first answer only starts follow-up work) "
               "against nodes that are silent, late, failing or closing, speculative executions on and off, retry decisions hopping hosts, "
               "page fetches started after delays shorter and longer than the timeout. Every page fetch must show an outcome by "
               "t_start + T + 0.05 s of virtual time. Held-on-observed schedules. (The missing timeout of later page fetches this monitor found "
@@ -91,8 +91,22 @@ def run_history(seed):
         nreq = rng.choice([1, 1, 2])
         specs = []
         for uid in range(1, nreq + 1):
-            kind = rng.choices(['simple', 'bound', 'paged'], [3, 1, 4])[0]
-            if kind == 'paged':
+            kind = rng.choices(['simple', 'bound', 'paged', 'use', 'ddl'], [3, 1, 4, 2 if nnodes > 1 else 0.5, 1])[0]
+            if kind in ('use', 'ddl'):
+                # statements whose first answer is not final: the coordinator answers normally (perhaps after a retried error), the follow-up
+                # (a USE on every pool's connection / the schema agreement wait) meets silent, late or disagreeing nodes
+                pre = [R.err(rng.choice(R.RETRYABLE))] if rng.random() < 0.25 else []
+                plan.set_page(uid, 0, pre + [kind, kind])
+                if kind == 'use':
+                    # one internal USE per pool; whatever comes later (pools rebuilt with the new keyspace) is answered
+                    plan.use_followup[uid] = [rng.choice(['rows', 'rows', 'silent', 'silent', 'late', 'hold']) for _ in range(nnodes)] + ['rows']
+                else:
+                    count('ddl_statements')
+                    if nnodes > 1 and rng.random() < 0.7:
+                        import uuid
+                        env.net.nodes[addrs[-1]].info.schema_version = uuid.UUID(int=1000 + uid)        # the nodes do not agree on the schema
+                        count('ddl_statements_with_disagreeing_nodes')
+            elif kind == 'paged':
                 npages = rng.randint(2, 4)
                 plan.pages[uid] = [list(range(10 * k, 10 * k + rng.randint(0, 2))) for k in range(npages)]
                 first_hostile = rng.random() < 0.25
@@ -135,8 +149,15 @@ def run_history(seed):
             mons[uid] = mon
             plan.started.add(uid)
             plan.epoch_of[uid] = 0
-            st = prepared[uid] if s['kind'] == 'bound' else SimpleStatement(R.uid_query(uid), is_idempotent=s['idem'],
-                                                                             fetch_size=2 if s['kind'] == 'paged' else None)
+            if s['kind'] == 'bound':
+                st = prepared[uid]
+            elif s['kind'] == 'use':
+                st = SimpleStatement(R.use_statement(uid))
+                count('use_statements')
+            elif s['kind'] == 'ddl':
+                st = SimpleStatement(R.ddl_statement(uid))
+            else:
+                st = SimpleStatement(R.uid_query(uid), is_idempotent=s['idem'], fetch_size=2 if s['kind'] == 'paged' else None)
             starter.start(mon, st)
             mon.deadline = mon.epoch_start[0] + T + R.EPS
             mon.done = False
@@ -152,6 +173,8 @@ def run_history(seed):
             count('first_page_deadline_checks' if e == 0 else 'later_page_deadline_checks')
             if unanswered:
                 count('deadline_checks_with_unanswered_messages')
+            if any(a['action'].startswith('followup-use') for a in unanswered):
+                count('followup_use_messages_unanswered_at_deadline')
             ok = bool(outs) and outs[0][2] <= mon.deadline + 1e-3
             if ok:
                 count('completed_within_bound')
@@ -282,8 +305,13 @@ def run_history(seed):
                              'fetch_started_at': [round(t, 4) for t in mon.epoch_start],
                              'outcomes': [_short(x) + '/page%d' % (x[1] + 1) for x in mon.primary.events] if mon.watches else [],
                              'messages': [(a['epoch'] + 1, a['op'], a['node'], round(a['t'], 4), a['action'], a['answered']) for a in plan.arrivals if a['uid'] == mon.uid]}
-        cluster.shutdown()
-        world.settle()
+        try:
+            cluster.shutdown()
+            world.settle()
+        except W.WorldHang:
+            # teardown only, after the verdict: a pool that was being (re)built while the scripted silence was in force switches its keyspace
+            # with Connection.set_keyspace_blocking(), which waits without any timeout and keeps its executor thread forever
+            count('teardowns_blocked_by_a_pool_waiting_for_its_keyspace')
     return viol, harness, sig, info, hist, cnt
 
 
@@ -337,4 +365,5 @@ def run(ctx):
     ctx.floor_distinct = 100 if ctx.quick else 1200
     ctx.floor_counters = {"histories": 150, "first_page_deadline_checks": 150, "later_page_deadline_checks": 60, "completed_by_client_timeout": 50,
                           "deadline_checks_with_unanswered_messages": 80, "blocking_result_calls": 20, "later_page_fetches": 60,
-                          "page_fetches_repeated_after_a_failed_fetch": 25}
+                          "page_fetches_repeated_after_a_failed_fetch": 25, "use_statements": 40,
+                          "followup_use_messages_unanswered_at_deadline": 15, "ddl_statements_with_disagreeing_nodes": 10}
